@@ -12,7 +12,7 @@ Search (oracle: NumPy values + the documented resolution of the spec followed by
   source, TasksRechunk, pushed through elemwise / transpose / concatenate / expand_dims, composed with slices,
   rechunk of rechunk), unknown sizes (allowed along unchanged axes, ValueError along changed ones), and rechunk at
   random positions of random programs.
-Failure signatures: rechunk:chunks, rechunk:values, rechunk:raises, rechunk:raises:zero-width,
+Failure signatures: rechunk:chunks, rechunk:chunks:optimize[-drops-balance|-size1-zero-width], rechunk:values, rechunk:raises, rechunk:raises:zero-width,
   rechunk:unknown-values, rechunk:unknown-not-refused, rechunk:unknown-raises, program:values, program:chunks, program:raises.
 """
 from __future__ import annotations
@@ -48,10 +48,14 @@ def enc_spec(spec):
         return None
     if isinstance(spec, str):
         return spec
+    if isinstance(spec, float) and math.isnan(spec):
+        return "nan"
     return int(spec)
 
 
 def dec_spec(e):
+    if e == "nan":
+        return float("nan")
     if isinstance(e, dict) and "dict" in e:
         return {int(k): dec_spec(v) for k, v in e["dict"]}
     if isinstance(e, dict) and "tuple" in e:
@@ -124,7 +128,21 @@ def rand_spec(rng, shape):
     return kind, spec, kw
 
 
-WRAPS = ("io", "blk", "elem", "tr", "cat", "exp", "slice", "rr")
+WRAPS = ("io", "blk", "elem", "tr", "cat", "exp", "slice", "slice-nocull", "slice-nocull", "rr", "store", "store-slice")
+
+
+class _Store:
+    """A chunked store (zarr/h5py-like): `.chunks` is the native storage grid, reads go through __getitem__."""
+
+    def __init__(self, a, chunks):
+        self._a = a
+        self.shape = a.shape
+        self.dtype = a.dtype
+        self.ndim = a.ndim
+        self.chunks = tuple(chunks)
+
+    def __getitem__(self, idx):
+        return self._a[idx]
 
 
 def build(case):
@@ -134,8 +152,14 @@ def build(case):
     shape = tuple(case["shape"])
     n = int(np.prod(shape)) if shape else 1
     data = (np.arange(n, dtype=np.int64) * 7 % 113).astype(case.get("dtype", "int64")).reshape(shape)
-    x = da.from_array(data, chunks=tuple(tuple(c) for c in case["chunks"]))
     w = case["wrap"]
+    if w in ("store", "store-slice"):
+        x = da.from_array(_Store(data, case["storage"]), chunks=tuple(tuple(c) for c in case["chunks"]))
+        if w == "store":
+            return x, data
+        idx = tuple(slice(a, b) for a, b in case["index"])
+        return x[idx], data[idx]
+    x = da.from_array(data, chunks=tuple(tuple(c) for c in case["chunks"]))
     if w == "io":
         return x, data
     if w == "blk":
@@ -154,6 +178,10 @@ def build(case):
     if w == "slice":
         idx = tuple(slice(a, b) for a, b in case["index"])
         return x.map_blocks(lambda b: b)[idx], data[idx]
+    if w == "slice-nocull":
+        # an off-grid slice that culls no block stays above the elemwise producer: the rechunk composes with it
+        idx = tuple(slice(a, b) for a, b in case["index"])
+        return (x + 0)[idx], (data + 0)[idx]
     if w == "rr":
         return x.map_blocks(lambda b: b).rechunk(tuple(tuple(c) for c in case["chunks2"])), data
     raise KeyError(w)
@@ -179,12 +207,23 @@ def rand_case(rng, maxdim, zeros=0.0):
         case["chunks2"] = [list(gen.rand_chunks(rng, s, zeros=zeros)) for s in shape]
     elif w == "exp":
         case["axis"] = rng.randint(0, rank)
-    elif w == "slice":
+    if w in ("store", "store-slice"):
+        case["storage"] = [rng.randint(1, max(1, s)) for s in shape]
+        case["chunks"] = [list(c) for c in (gen.rand_chunks(rng, s) for s in shape)]
+    if w in ("slice", "store-slice"):
         idx = []
         for s in shape:
             a = rng.randint(0, max(0, s - 1))
             b = rng.randint(a + 1, s)
             idx.append([a, b])
+        case["index"] = idx
+    elif w == "slice-nocull":
+        case["chunks"] = [list(gen.rand_chunks(rng, s_)) for s_ in shape]
+        idx = []
+        for s_, c in zip(shape, case["chunks"]):
+            a = rng.randint(0, c[0] - 1)
+            b_ = rng.randint(max(a + 1, s_ - c[-1] + 1), s_)
+            idx.append([a, b_])
         case["index"] = idx
     elif w == "rr":
         case["chunks2"] = [list(gen.rand_chunks(rng, s, zeros=zeros)) for s in shape]
@@ -234,9 +273,19 @@ def check_spec_case(ctx, case):
     if not ok_chunks:
         ctx.fail("rechunk:chunks", dict(case, got=[list(c) for c in got], want=[list(c) for c in want]),
                  "x.rechunk(spec).chunks differs from normalizing the spec against x's shape and chunks")
+    elif tuple(opt_chunks) != tuple(got) and tuple(b.optimize().chunks) != tuple(b.chunks):
+        # the array BEFORE the rechunk already changes its chunks under optimize() (seen: elemwise lowering of a
+        # zero-width chunk on a size-1 axis): not attributable to the rechunk, outside C14 (C03/C17)
+        ctx.notes["base_chunks_drift_under_optimize"] = ctx.notes.get("base_chunks_drift_under_optimize", 0) + 1
     elif tuple(opt_chunks) != tuple(got):
-        ctx.fail("rechunk:chunks", dict(case, got=[list(c) for c in opt_chunks], want=[list(c) for c in got], where="after optimize()"),
-                 "the optimized expression advertises other chunks than x.rechunk(spec).chunks")
+        if kw.get("balance"):
+            sig = "rechunk:chunks:optimize-drops-balance"
+        elif any(n == 1 and 0 in c for n, c in zip(b.shape, got)):
+            sig = "rechunk:chunks:optimize-size1-zero-width"
+        else:
+            sig = "rechunk:chunks:optimize"
+        ctx.fail(sig, dict(case, got=[list(c) for c in opt_chunks], want=[list(c) for c in got], where="after optimize()"),
+                 "the optimized expression has other chunks than x.rechunk(spec).chunks advertises")
     if val.shape != ref.shape or not np.array_equal(val, ref):
         ctx.fail("rechunk:values", dict(case, got=np.asarray(val).tolist(), want=ref.tolist()), "x.rechunk(spec) computes other values than x")
     return got, want, kw
@@ -564,6 +613,22 @@ def search(ctx):
             got, want, _ = r
             for g, w in zip(got, want):
                 bal_pairs.append((f"rp.balance {f_list(w)}", "ok " + f_list(g)))
+    # balance=True where balancing changes the layout (n % k != 0), under every graph shape
+    for i in range(ctx.scale(160, 2500)):
+        case = rand_case(rng, rng.choice([7, 10, 13]))
+        try:
+            b, _ = build(case)
+        except EXC:
+            continue
+        spec = tuple(rng.choice([k for k in range(2, n) if n % k] or [max(1, n)]) if n > 2 else -1 for n in b.shape)
+        case["speckind"] = "balance"
+        case["spec"] = enc_spec(spec)
+        case["kw"] = {"balance": True}
+        r = check_spec_case(ctx, case)
+        if r:
+            got, want, _ = r
+            for g, w in zip(got, want):
+                bal_pairs.append((f"rp.balance {f_list(w)}", "ok " + f_list(g)))
     ctx.correspond("rechunk(balance=True).chunks", bal_pairs)
     # unknown sizes
     for _ in range(ctx.scale(250, 4000)):
@@ -577,7 +642,9 @@ def search(ctx):
             if rng.random() < 0.7:
                 d[ax] = rng.choice([rng.randint(1, shape[ax]), -1, tuple(gen.rand_chunks(rng, shape[ax]))])
         if changes:
-            d[0] = rng.choice([rng.randint(1, shape[0]), -1, "auto"])
+            nblk = len(chunks[0])
+            # an explicit layout of the unknown axis with another number of blocks is a change too
+            d[0] = rng.choice([rng.randint(1, shape[0]), -1, "auto", (float("nan"),) * (nblk + rng.choice([-1, 1, 2]) or nblk + 1)])
         if not d:
             d[rank - 1] = -1
         form = rng.random()
